@@ -70,6 +70,8 @@ impl ServerRef {
     pub fn add_new_tasks(&self, task_submit: TaskSubmit) -> crate::Result<()> {
         let mut core = self.core_ref.get_mut();
         let mut comm = self.comm_ref.get_mut();
+        #[cfg(it4innovations_hyperqueue_verif)]
+        crate::verif::server::record_task_submit(&task_submit);
         handle_new_tasks(&mut core, &mut comm, task_submit)
     }
 
@@ -79,6 +81,8 @@ impl ServerRef {
 
     pub fn cancel_tasks(&self, tasks: &[TaskId]) {
         log::debug!("Client asked for canceling tasks: {tasks:?}");
+        #[cfg(it4innovations_hyperqueue_verif)]
+        crate::verif::sched::record(crate::verif::sched::Record::Cancel(tasks.to_vec()));
         let mut core = self.core_ref.get_mut();
         let mut comm = self.comm_ref.get_mut();
         on_cancel_tasks(&mut core, &mut *comm, tasks);
